@@ -86,7 +86,7 @@ func init() {
 		ID: "C12",
 		Rule: "cases are (target, merge patch) pairs: the complete product of an exhaustive family of small documents (objects of <=2 keys over {1, null, {}, {\"x\":1}, {\"x\":null}, [1], \"s\", []} to depth 2-3, scalars, arrays and null at the root) and random deeper pairs where the patch is a mutation of the target with nulls sprinkled; " +
 			"ReadMergeString + Patch is compared with the RFC 7386 pseudocode; non-trivial = every case; distinct = distinct (target, patch)",
-		Floors: map[string]int{"agree": 20000, "patch_has_null": 5000, "patch_is_not_object": 1000, "patch_has_empty_object": 1000, "file_reader_compared": 3000, "cli_merge_runs": 500},
+		Floors: map[string]int{"agree": 20000, "patch_has_null": 5000, "patch_is_not_object": 1000, "patch_has_empty_object": 1000, "file_reader_compared": 3000, "cli_merge_runs": 500, "sequence_steps": 5000},
 		Assumptions: []string{"ref.MergePatch is the RFC 7386 pseudocode verbatim", "the empty (void) document as target is included; as patch text it is not a JSON document and is excluded"},
 	}
 	small := smallMergeDocs(true)
@@ -134,6 +134,57 @@ func init() {
 				c.Feature("deep_chain_pairs")
 			}
 			c12Case(c, ref.ToJSON(t), ref.ToJSON(patch))
+		},
+	})
+	// a document kept in memory and patched again and again (never re-parsed): each step must equal the RFC result
+	p.Strata = append(p.Strata, mon.Stratum{
+		Name: "patch-sequences",
+		N:    qt(4000, 100000),
+		Run: func(c *mon.Ctx, i int) {
+			prof := gen.PObjects
+			t := gen.Doc(c.R, prof)
+			tText := ref.ToJSON(t)
+			c.Input("target", tText)
+			cur := ReadJ(tText)
+			want := t
+			steps := c.R.Range(2, 4)
+			var texts []string
+			for k := 0; k < steps; k++ {
+				var patch any
+				switch c.R.Intn(4) {
+				case 0:
+					patch = map[string]any{gen.Pick(c.R, prof.Keys): map[string]any{gen.Pick(c.R, prof.Keys): gen.Scalar(c.R, prof)}}
+				case 1:
+					patch = map[string]any{gen.Pick(c.R, prof.Keys): map[string]any{"fresh": map[string]any{"n": float64(k)}}, "gone": nil}
+				default:
+					patch = sprinkleNulls(c.R, gen.Mutate(c.R, prof, want), true)
+				}
+				if _, isObj := patch.(map[string]any); !isObj || ref.ContainsEmptyObject(patch) || patch == nil {
+					patch = map[string]any{"k": float64(k)}
+				}
+				pText := ref.ToJSON(patch)
+				texts = append(texts, pText)
+				c.Input(fmt.Sprintf("patch_%d", k+1), pText)
+				d, err := jd.ReadMergeString(pText)
+				if err != nil {
+					c.Violation("ReadMergeString rejected a merge patch: "+err.Error(), nil)
+					return
+				}
+				var perr error
+				if pan := mon.Safe(func() { cur, perr = cur.Patch(d) }); pan != "" || perr != nil || cur == nil {
+					c.Violation(fmt.Sprintf("step %d of a patch sequence failed: %v %s", k+1, perr, pan), nil)
+					return
+				}
+				want = ref.MergePatch(want, patch)
+				c.Feature("sequence_steps")
+				c.Event()
+				if got := Plain(cur); !ref.Eq(got, want, ref.List) {
+					c.Violation(fmt.Sprintf("after step %d of a sequence of merge patches on one in-memory document the result differs from RFC 7386", k+1),
+						map[string]any{"jd_result": ref.ToJSON(got), "rfc_result": ref.ToJSON(want)})
+					return
+				}
+			}
+			c.Nontrivial(joinKey(tText, joinKey(texts...)))
 		},
 	})
 	// the same through the real binaries: jd -p -f merge patch target, JSON and YAML output
